@@ -89,7 +89,8 @@ func (c *Conn) Sendfile(f *os.File, remain int64) (int64, error) {
 			remain -= int64(n)
 			offset += int64(n)
 		} else if n == 0 && err == nil {
-			break
+			// the file is shorter than the accepted range: report what was sent.
+			return total - remain, io.ErrUnexpectedEOF
 		}
 		if errors.Is(err, syscall.EINTR) {
 			continue
@@ -98,11 +99,13 @@ func (c *Conn) Sendfile(f *os.File, remain int64) (int64, error) {
 			// After this Sendfile func returns, fs will be closed by the caller.
 			// So we need to dup the fd and close it when we don't need it any more.
 			src, err = syscall.Dup(src)
-			if err == nil {
-				c.newToWriteFile(src, offset, remain)
-				// c.appendWrite(t)
-				c.modWrite()
+			if err != nil {
+				// the rest can not be queued: report what was sent.
+				return total - remain, err
 			}
+			c.newToWriteFile(src, offset, remain)
+			// c.appendWrite(t)
+			c.modWrite()
 			break
 		}
 		if err != nil {
